@@ -19,6 +19,7 @@ type Verifier struct {
 	replayImports map[string]string
 	overlayFiles  map[string]string // overlay path -> replacement file (handed on to go test -overlay by the bounded checks)
 	prog          *ssa.Program
+	constMaps     map[*ssa.Global]*constMapInfo
 	pkgs          []*packages.Package
 	ssaPkgs       map[string]*ssa.Package
 	cs            *Contracts
